@@ -245,6 +245,18 @@ def run(pid, tier):
             traces.append(ev)
             meta.append({"hist": h, "info": info})
             ck.count(("hist", json.dumps(h, sort_keys=True)))
+    # every configuration x every input in two fresh interpreters (hash seed 0 and random) and twice in one process:
+    # the sampled histories above may miss a configuration, this baseline never does
+    base_hist = []
+    for cid in CFGS:
+        for inp in INPUTS:
+            base_hist.append([{"a": "spawn", "seed": 0}, {"a": "spawn", "seed": 2},
+                              {"a": "construct", "p": 1, "cfg": cid}, {"a": "construct", "p": 2, "cfg": cid},
+                              {"a": "run", "p": 1, "k": 1, "inp": inp}, {"a": "run", "p": 2, "k": 1, "inp": inp}, {"a": "run", "p": 1, "k": 1, "inp": inp}])
+    with concurrent.futures.ThreadPoolExecutor(max_workers=common.NPROC) as ex:
+        for h, (ev, info) in zip(base_hist, ex.map(replay_history, base_hist)):
+            traces.append(ev)
+            meta.append({"hist": h, "info": info})
     ev, info = main_runs(ck)
     traces.append(ev)
     meta.append({"hist": "command line, three hash seeds", "info": info})
